@@ -234,6 +234,43 @@ def _quotient(t):
     return None
 
 
+def _pool_argument_ok(eng, fi, coll) -> bool:
+    """`coll` is a variable of (an enclosing function of) get_reaction_prob; follow it to the values the search hands in:
+    each must be `<stochastic object>.repeat_bonds`, `<stochastic object>.end_bonds` or `<plain token>.bond_descriptors`,
+    repeat tokens being paired with repeat_bonds and end tokens with end_bonds."""
+    name = coll.split(".")[0].split("[")[0]
+    f = fi
+    while f is not None and name not in f.params:
+        f = f.parent
+    if f is None:
+        return False
+    # call sites of f inside its parent chain: tuples appended to a worklist and unpacked later are followed textually
+    owner = f.parent or f
+    texts = []
+    for n in ast.walk(owner.node):
+        if isinstance(n, ast.Call) and isinstance(n.func, ast.Attribute) and n.func.attr == "append" and n.args and isinstance(n.args[0], ast.Tuple) and len(n.args[0].elts) >= 3:
+            texts.append((src(n.args[0].elts[-1]), n))
+    if not texts:
+        return False
+    ok = True
+    for t, n in texts:
+        loops = []
+        p_ = getattr(n, "_parent", None)
+        while p_ is not None and p_ is not owner.node:
+            if isinstance(p_, ast.For):
+                loops.append(src(p_.iter))
+            p_ = getattr(p_, "_parent", None)
+        if t.endswith(".repeat_bonds"):
+            ok = ok and any(l.endswith(".repeat_tokens") for l in loops)
+        elif t.endswith(".end_bonds"):
+            ok = ok and any(l.endswith(".end_tokens") for l in loops)
+        elif t.endswith(".bond_descriptors"):
+            ok = ok and not loops
+        else:
+            ok = False
+    return ok
+
+
 def reaction_prob(eng, res, rule="R-REACTION-PROB"):
     """The probability model mirrors the generator's choices: with a transition list the partner's entry over the
     list's total; otherwise the partner's weight over the summed weight of the token's compatible descriptors;
@@ -272,9 +309,28 @@ def reaction_prob(eng, res, rule="R-REACTION-PROB"):
     ok = got_list is not None and len(alts) == 2
     res.ob(rule, fi, "list-law", "with a transition list: probability = list entry of the partner's descriptor number / the open descriptor's weight (= Σ list)", fi.node, ok,
            f"alternatives: {[src(a)[:90] for a in alts]}")
-    ok = got_weight is not None and acc == ("0", f"§elem({T}.bond_descriptors).weight") and len(alts) == 2
-    res.ob(rule, fi, "weight-law", "without a list: probability = partner's weight / Σ weights of the token's descriptors (accumulated from 0)", fi.node, ok,
+    import re as _re
+
+    coll = None
+    if acc is not None:
+        m_ = _re.fullmatch(r"§elem\((.+)\)\.weight", acc[1])
+        coll = m_.group(1) if m_ else None
+    ok = got_weight is not None and acc is not None and acc[0] == "0" and coll is not None and len(alts) == 2
+    res.ob(rule, fi, "weight-law", "without a list: probability = partner's weight / Σ weights of candidate descriptors (accumulated from 0)", fi.node, ok,
            f"alternatives: {[src(a)[:110] for a in alts]}")
+    # which candidates?  The generator draws the partner among ALL repeat-unit descriptors of the object while it grows and
+    # among ALL end-group descriptors when it caps (C08 R-POOLS: self.repeat_bonds / self.end_bonds); a plain token offers
+    # its own descriptors.  The sum must run over that pool, not over the one token the partner happens to sit on.
+    pool_ok, pool_why = False, f"the normalising sum runs over {coll}"
+    if coll is not None:
+        if coll == f"{T}.bond_descriptors":
+            pool_why = (f"the normalising sum runs over `{coll}` — the descriptors of the partner's own token — while the generator draws the partner among all "
+                        "repeat-unit (growing) / all end-group (capping) descriptors of the stochastic object: with two end groups of the same direction each is reported with probability 1")
+        else:
+            # a pool handed in by the caller: every call site must pass repeat_bonds / end_bonds of the active object (or a plain token's own list)
+            pool_ok = _pool_argument_ok(eng, fi, coll)
+            pool_why = f"pool `{coll}`: " + ("every call site hands in the object's repeat / end descriptors (or a plain token's own list)" if pool_ok else "not the generator's pool at every call site")
+    res.ob(rule, fi, "weight-law-pool", "the normalising sum runs over the pool the generator draws the partner from (all repeat-unit descriptors when growing, all end-group descriptors when capping)", fi.node, pool_ok, pool_why)
     # which law under which condition, and the filter of the sum
     lst = [d for d in fl.defs if d.kind == "assign" and d.value is not None and src(d.value) == f"{O}.transitions[{B}.descriptor_num]"]
     ok = bool(lst) and all(f"{O}.transitions is not None" in {t for t, _ in _guards(fl, d.stmt)} for d in lst)
